@@ -186,3 +186,23 @@ VALID_UNITS = {
     'comments': lambda n: 'x' + '/**/' * n + 'y',
 }
 VALID_TAILS = ['', ' 1', ' x', ' "s"', ',', ' !important', ' /']
+
+
+# -- lexeme families that a backtracking matcher can split in many ways: n repeated units after an opener that is
+#    never closed (or a name that is never followed by what a production needs).  A matcher that tries every
+#    split needs 2^n steps; the sweep runs them at sizes where that cannot finish and a linear scan is instant.
+LEX_OPENERS = ['"', "'", 'url(', 'url("', "url('", 'url( ', 'URL(', 'u\\72l(', '@import url(', '@import "', 'a{b:"', 'a{b:url(',
+               'a[b="', '@namespace p "', '@charset "', 'a', '#', '@', '1', '-', 'a{b:1', '.', 'a:', '!', 'a{b:c !', 'U+', '/*', '<!-']
+LEX_UNITS = ['\\41 ', '\\41', '\\E', '\\e9 ', '\\x', '\\41\t', '\\41\n', '\\41\r\n', '\\000041', '\\0000411', '\\\\', '\\"', "\\'",
+             '\\)', '\\(', '\\ ', '\\\n', 'a', '1', 'f', ' ', '\t', '/**/', ' /**/', '*', '?', '-', 'é', '\\', 'a\\', '1\\41 ']
+LEX_TAILS = ['', ' x', '\n', '\nx', 'x', ' (', ';}', ' ;', '\\']
+
+
+def lexeme_cases(n, rng=None, per=None):
+    """every opener x unit x tail at size n (thorough) or `per` drawn (unit, tail) pairs per opener (quick)"""
+    for op in LEX_OPENERS:
+        pairs = [(u, t) for u in LEX_UNITS for t in LEX_TAILS]
+        if per is not None:
+            pairs = rng.sample(pairs, per) + [('\\41 ', ' x'), ('\\E', ' x'), ('\\x', ' x'), (' ', 'x'), ('/**/', 'x')]
+        for u, t in pairs:
+            yield op + u * n + t
